@@ -72,7 +72,7 @@ fn sample(t: &mut Tape, class: Class) -> String {
         Class::Lower => t.pick(&["", "a", "abc", "jan", "may", "x"]).to_string(),
         Class::Word => t.pick(&WORD_TEXTS).to_string(),
         Class::NonSpace | Class::Lazy | Class::Greedy => t.pick(&FREE_TEXTS).to_string(),
-        Class::Padded => format!("{}{}{}", t.pick(&["", " ", "  ", "\t"]), t.pick(&["12", "abc", "", "7"]), t.pick(&["", " ", "   "])),
+        Class::Padded => format!("{}{}{}", t.pick(&["", " ", "  ", "\t", "\u{a0}", "\u{3000}", "\u{b}", " \u{2003}"]), t.pick(&["12", "abc", "", "7"]), t.pick(&["", " ", "   ", "\u{a0}", "\u{85}", "\u{2028}", "\t\u{3000} "])),
     }
 }
 
